@@ -16,7 +16,8 @@ functions: every statement is parsed (lexer / expression parser of gen/x_contrac
     (`encodedVM.toUint8(index) + 27` is a uint8 addition and reverts above 255; `index += 32` is a uint256 addition)
   * `b.toUint8/16/32/64(i)`, `b.toBytes32(i)`, `b.slice(i, n)` = BytesLib's bounds `require` (read from BytesLib.sol) then the bytes;
     `a[i]` out of bounds = revert; `new T[](n)`; `.length`; `keccak256(..)`, `abi.encodePacked(one bytes32 / bytes value)`, `ecrecover`
-    = functions of the environment record (oracles); `getGuardianSet`, `getCurrentGuardianSetIndex`, `block.timestamp` = the
+    = functions of the environment record (oracles); `a && b` / `a || b` with a right operand that can revert = `if a then b else false`
+    / `if a then true else b` (short circuit); `getGuardianSet`, `getCurrentGuardianSetIndex`, `block.timestamp` = the
     environment; `quorum` = sol_quorum of gen/Extracted.v; calls among the four functions = calls of the translated functions.
 
 A statement, operand or type outside this subset raises Broken (the tie is reported as lost)."""
@@ -499,7 +500,12 @@ class Fn:
             self.want(ta, "bool", e[1])
             self.want(tb, "bool", e[2])
             if b2:
-                raise Broken("%s: the right operand of `%s` can revert (short-circuit evaluation of such an operand is not understood)" % (self.what, CV.canon(e)[:80]))
+                # short-circuit evaluation: the right operand (which can revert) is evaluated only when the left one does not decide
+                x = self.fresh()
+                right = self.wrap(b2, "Some %s" % c)
+                if k == "and":
+                    return b1 + [(x, "(if %s then %s else Some false)" % (a, right))], x, ("bool",)
+                return b1 + [(x, "(if %s then Some true else %s)" % (a, right))], x, ("bool",)
             return b1, "(%s %s %s)" % (a, "&&" if k == "and" else "||", c), ("bool",)
         if k == "cmp":
             b1, a, ta = self.ex(e[2], env)
